@@ -525,6 +525,28 @@ theorem held_persist_run (c : Cfg) (hw : WF c) (s : St) (sched : List Label)
       · have := (started_persist c hw s s' t k h).2 htp
         rw [hx, this]; exact hh
 
+/-- in a state in which nothing can run and no read is pending, silence changes nothing: thread
+turns and attempts of the read deadline to fire leave the state as it is -/
+theorem silent_stuck (c : Cfg) (s : St) (hq : quiescent c s = true) (hk : estep c s .kaExpire = none)
+    (sched : List Label) (hs : ∀ l, l ∈ sched → (∃ t k, l = .th t k) ∨ l = .env .kaExpire) :
+    run c s sched = s := by
+  induction sched with
+  | nil => rfl
+  | cons l ls ih =>
+    have hl : step c s l = none := by
+      rcases hs l (List.mem_cons_self ..) with ⟨t, k, rfl⟩ | rfl
+      · have h1 := (quiescent_iff c s).mp hq t
+        have h2 := tstep_isSome_k c s t k 1
+        simp only [en] at h1
+        rw [h1] at h2
+        simp only [step]
+        cases h3 : tstep c s t k with
+        | none => rfl
+        | some x => rw [h3] at h2; cases h2
+      · exact hk
+    simp only [run, hl]
+    exact ih (fun l' hl' => hs l' (List.mem_cons_of_mem _ hl'))
+
 /-- the configuration of the closed counterexamples and examples of `Properties/C16.lean`: a
 16-byte ring, 8-byte blocks -/
 def c0 : Cfg := { cap := 16, rblock := 8, wblock := 8 }
